@@ -127,3 +127,65 @@ pub(crate) fn stub_clone_rgba_only(p: &crate::pixel::Pixels) -> std::borrow::Cow
         }
     }
 }
+
+// ---------------------------------------------------------------------------------------------------------
+// Byte-level skeleton builders (Aseprite file spec): concrete framing, symbolic attribute bytes.
+pub(crate) fn put16(v: &mut Vec<u8>, x: u16) {
+    v.push(x as u8);
+    v.push((x >> 8) as u8);
+}
+pub(crate) fn put32(v: &mut Vec<u8>, x: u32) {
+    put16(v, x as u16);
+    put16(v, (x >> 16) as u16);
+}
+static ZEROS: [u8; 128] = [0; 128];
+/// n zero bytes (n <= 128) as one slice copy: no loop to unwind
+pub(crate) fn put_zeros(v: &mut Vec<u8>, n: usize) {
+    v.extend_from_slice(&ZEROS[..n]);
+}
+/// n symbolic bytes (n <= 16) as one slice copy: no loop to unwind
+pub(crate) fn put_any(v: &mut Vec<u8>, n: usize) {
+    let a: [u8; 16] = kani::any();
+    v.extend_from_slice(&a[..n]);
+}
+/// length-prefixed string of `n` symbolic ASCII bytes (n concrete)
+pub(crate) fn put_any_ascii(v: &mut Vec<u8>, n: usize) {
+    put16(v, n as u16);
+    for _ in 0..n {
+        let c: u8 = kani::any();
+        kani::assume(c < 0x80);
+        v.push(c);
+    }
+}
+pub(crate) fn rd16(b: &[u8], at: usize) -> u16 {
+    (b[at] as u16) | ((b[at + 1] as u16) << 8)
+}
+pub(crate) fn rd32(b: &[u8], at: usize) -> u32 {
+    (rd16(b, at) as u32) | ((rd16(b, at + 2) as u32) << 16)
+}
+/// chunk = size(4) type(2) payload
+pub(crate) fn mk_chunk(ty: u16, payload: &[u8]) -> Vec<u8> {
+    let mut v = Vec::with_capacity(payload.len() + 6);
+    put32(&mut v, payload.len() as u32 + 6);
+    put16(&mut v, ty);
+    v.extend_from_slice(payload);
+    v
+}
+/// frame = bytes(4) magic(2) old count(2) duration(2) reserved(2) new count(4) chunks
+pub(crate) fn mk_frame(chunks: &[Vec<u8>], duration: u16, old_count: u16, new_count: u32) -> Vec<u8> {
+    let mut body = 0usize;
+    for c in chunks {
+        body += c.len();
+    }
+    let mut v = Vec::with_capacity(16 + body);
+    put32(&mut v, 16 + body as u32);
+    put16(&mut v, 0xF1FA);
+    put16(&mut v, old_count);
+    put16(&mut v, duration);
+    put16(&mut v, 0);
+    put32(&mut v, new_count);
+    for c in chunks {
+        v.extend_from_slice(c);
+    }
+    v
+}
